@@ -203,6 +203,23 @@ Theorem C11_redeem_no_early_unlock :
 Proof. exact redeem_no_early_unlock_all_histories. Qed.
 Print Assumptions C11_redeem_no_early_unlock.
 
+(** Between its creation and any later state a liquid denom keeps its start and
+    end time and its recorded schedule only shrinks: at every time it has released
+    at most what the schedule recorded earlier had released.  Together with
+    [C11_liquidate_time_split] (the schedule recorded at creation is a part of the
+    original lockup schedule at the original absolute times) and
+    [C11_redeem_no_early_unlock] this is the end-to-end statement: coins that come
+    back through any sequence of transfers and redeems are never released before
+    the original lockup schedule released them. *)
+Theorem C11_denom_schedule_only_shrinks :
+  forall ops1 ops2 d den den',
+    denoms (run true ops1 init) !! d = Some den ->
+    denoms (run true (ops1 ++ ops2) init) !! d = Some den' ->
+    d_start den' = d_start den /\ d_end den' = d_end den /\
+    forall tau, ev (d_start den') (d_periods den') tau <= ev (d_start den) (d_periods den) tau.
+Proof. exact denom_shrinks_all_histories. Qed.
+Print Assumptions C11_denom_schedule_only_shrinks.
+
 (** The event sum used above is what the account's own GetUnlockedCoins reports
     (valid account, any time other than the start second itself), and is never
     below it. *)
